@@ -319,6 +319,9 @@ class PageRenderer:
                         last_val = last_values.get(col_name)
 
                         if val is None:
+                            if force_render:
+                                # Heading state below a re-rendered level is stale
+                                last_values.pop(col_name, None)
                             continue
 
                         # Check for change
